@@ -12,7 +12,7 @@ from fractions import Fraction as F
 from types import SimpleNamespace
 
 import c08_gen as G
-from c20 import T, T2, close, enc, make_gmrf_case
+from c20 import T, T2, close, enc, make_gmrf_case, observe
 from common import REPO
 
 LOG2PI = math.log(2.0 * math.pi)
@@ -171,21 +171,12 @@ def gmrf_routes(R, rng, n, integrated):
             ck.case(key=("c20route", cls.__name__, mode, name, n, tuple(case["field"])), bucket=f"route/{cls.__name__}/{mode}/{name.split('#')[0].split('/')[0]}")
             try:
                 v = _scalar(m())
-                resc = m._rescale if integrated else m.rescale
-                has_tree = m.tree_model is not None
-                w_attr = m._weights if integrated else m.weights
-                hyper = (float(m._shape), float(m._rate)) if integrated else None
             except Exception as e:
                 R.violation(f"{cls.__name__}:route:raises", f"{cls.__name__} through {name}: {type(e).__name__}: {str(e)[:120]}", case, n, {"route": name})
                 continue
-            ok_named = has_tree == (mode in ("T0", "T1")) and (w_attr is not None) == (mode == "W")
-            if mode in ("T0", "T1"):
-                ok_named = ok_named and bool(resc) == rescale
-            if integrated:
-                ok_named = ok_named and hyper == (float(case["shape"]), float(case["rate"]))
-            if not ok_named:
-                R.violation(f"{cls.__name__}:route:options", f"{cls.__name__} through {name} is not the object its options name "
-                            f"(tree {has_tree}, weights {w_attr is not None}, rescale {resc}, hyper-parameters {hyper})", case, n, {"route": name})
+            # "is the object the one its options name" is decided by BEHAVIOUR: its log density against the documented formula
+            # of the variant / hyper-parameters that were written (below) — the value separates plain / weighted / time-aware,
+            # rescaled or not, and the hyper-parameters. No attribute of the object is read for it.
             if v is None or not close(v, want, 1e-10, abs(want)):
                 R.violation(f"{cls.__name__}:route:value", f"{cls.__name__} ({mode}) through {name} evaluates to {v!r}; documented formula {want!r}", case, n,
                             {"route": name, "impl": v, "reference": want})
@@ -230,12 +221,13 @@ def cint_routes(R, rng, n):
         ck.case(key=("cintroute", name, n, tuple(coal)), bucket=f"route/ConstantCoalescentIntegratedModel/{name}")
         try:
             v = _scalar(mobj())
-            named = (float(mobj.alpha), float(mobj.beta)) == (al, be)
         except Exception as e:
             R.violation("ConstantCoalescentIntegratedModel:route:raises", f"{name}: {type(e).__name__}: {str(e)[:120]}", case, n)
             continue
-        if not named:
-            R.violation("ConstantCoalescentIntegratedModel:route:options", f"through {name}: alpha/beta are ({mobj.alpha}, {mobj.beta}), given ({al}, {be})", case, n)
+        # the hyper-parameters it was given are decided by the VALUE (closed form below); the public attributes are compared when there
+        have, ab = observe(ck, "ConstantCoalescentIntegratedModel.alpha/beta", lambda: (float(mobj.alpha), float(mobj.beta)))
+        if have and ab != (al, be):
+            R.violation("ConstantCoalescentIntegratedModel:route:options", f"through {name}: alpha/beta are {ab}, given ({al}, {be})", case, n)
         if v is None or not close(v, want, 1e-10, abs(want)):
             R.violation("ConstantCoalescentIntegratedModel:route:value", f"through {name}: {v!r}; documented closed form {want!r}", case, n,
                         {"impl": v, "reference": want})
@@ -325,7 +317,9 @@ def gmrf_regimes(R, rng, n, mode):
         case.update(saved_case)
         a3 = _scalar(g1())
         g3 = copy.deepcopy(g1)
-        g3.precision.tensor = T([F(3)])
+        have3, p3 = observe(ck, "deepcopy.precision", lambda: g3.precision)
+        if have3:
+            p3.tensor = T([F(3)])
         c = _scalar(g3())
         Qc = g3.precision_matrix()
         a4 = _scalar(g1())
@@ -335,13 +329,13 @@ def gmrf_regimes(R, rng, n, mode):
         return
     ck.case(key=("c20hist", mode, n, tuple(case["field"])), bucket=f"history/GMRF/{mode}/repeat+second-instance+deepcopy")
     for what, v, o in (("first evaluation", a1, want), ("same call again", a2, want), ("second object of the same shapes", b, want2),
-                       ("first object after the second was used", a3, want), ("deepcopy with a new precision", c, want3),
+                       ("first object after the second was used", a3, want), ("deepcopy with a new precision", c, want3 if have3 else want),
                        ("original after its deepcopy was updated", a4, want)):
         if v is None or not close(v, o, 1e-10, abs(o)):
             R.violation(f"GMRF:history:{what.replace(' ', '-')}", f"GMRF ({mode}): {what}: {v!r}, documented formula {o!r}", case, n)
     x = [float(v) for v in case["field"]]
     q = sum(x[i] * float(Qc[i][j]) * x[j] for i in range(n) for j in range(n))
-    if not close(q, 3.0 * sumsq_ref(case), 1e-10, abs(q)):
+    if have3 and not close(q, 3.0 * sumsq_ref(case), 1e-10, abs(q)):
         R.violation("GMRF:history:deepcopy-precision-matrix", f"GMRF ({mode}): precision_matrix of the updated deepcopy gives x'Qx = {q!r}, 3 * sum of scaled squares = {3.0 * sumsq_ref(case)!r}", case, n)
 
 
